@@ -385,6 +385,11 @@ pub struct Compiler<'a, E: quiver_core::effects::Effect> {
     // call-site return-type dispatch. `None` outside a function body.
     collected_dispatch: Option<DispatchCollection>,
 
+    // Whether the function body being compiled has tail-called itself (`^`). Such a branch is
+    // typed `never`, standing for "whatever the function returns", so its entry in a case table
+    // says nothing about the result for the arguments it covers.
+    self_tail_call_seen: bool,
+
     // Set by the most recent function-body block: the unhandled parameter type when the body is
     // a non-exhaustive enumeration (every branch a variant pattern, but some variant uncovered).
     // Consulted by the return-type check to name unhandled cases. `None` if exhaustive or not an
@@ -516,6 +521,7 @@ impl<'a, E: quiver_core::effects::Effect> Compiler<'a, E> {
             process_types,
             current_receive_type_id: never_id,
             collected_dispatch: None,
+            self_tail_call_seen: false,
             last_uncovered: None,
             fn_case_tables: HashMap::new(),
             case_tables: HashMap::new(),
@@ -1576,6 +1582,7 @@ impl<'a, E: quiver_core::effects::Effect> Compiler<'a, E> {
             branches: Vec::new(),
             valid: true,
         });
+        let saved_self_tail_call = std::mem::replace(&mut self.self_tail_call_seen, false);
         let body_type = match function.body {
             Some(body) => {
                 // Function parameters have Provenance::Parameter since they come from callers
@@ -1596,6 +1603,7 @@ impl<'a, E: quiver_core::effects::Effect> Compiler<'a, E> {
             }
         };
         let dispatch = std::mem::replace(&mut self.collected_dispatch, saved_dispatch);
+        let recursed = std::mem::replace(&mut self.self_tail_call_seen, saved_self_tail_call);
 
         // Validate return type if specified
         if let Some(return_type_ast) = &function.return_type {
@@ -1662,8 +1670,10 @@ impl<'a, E: quiver_core::effects::Effect> Compiler<'a, E> {
 
         // If every branch of the body was a pure parameter dispatch, record its case table so
         // calls can specialize the result type to the concrete argument (return-type dispatch).
+        // A body that tail-calls itself has no usable table: the recursive branch's `never`
+        // would be taken as the result for every argument it covers.
         let dispatch_table = dispatch
-            .filter(|d| d.valid && !d.branches.is_empty())
+            .filter(|d| d.valid && !d.branches.is_empty() && !recursed)
             .map(|d| d.branches);
 
         // Create type information for the function.
@@ -4538,6 +4548,7 @@ impl<'a, E: quiver_core::effects::Effect> Compiler<'a, E> {
 
         if identifier.is_none() && accessors.is_empty() {
             // Tail call to parameter - argument is already on stack, just emit tail call
+            self.self_tail_call_seen = true;
             self.codegen.add_instruction(Instruction::TailCall(true));
             Ok(self.program.never())
         } else {
